@@ -1184,6 +1184,21 @@ func (e *xstore) do(op string) {
 				}
 			}
 		}
+	case "badpush":
+		// a manifest media type with bytes that do not decode: Push must fail and leave nothing
+		// behind (storage.Push, graph.Index fails, the blob is removed again)
+		i, err := strconv.Atoi(arg)
+		if e.ociSt == nil || err != nil || !e.valid(i) {
+			return
+		}
+		perr := e.pushOne(i)
+		if perr == nil {
+			run.Count("bad-manifest-push-accepted-not-judged")
+		} else {
+			run.Count("bad-manifest-push-refused")
+		}
+		e.refreshStored()
+		e.sops = append(e.sops, fmt.Sprintf("K%d", i))
 	case "alg":
 		// the node is addressed by another digest algorithm (its descriptor, as embedded in the
 		// manifests that reference it, was built with it)
@@ -2480,6 +2495,8 @@ func genChain(r *common.Rand, origin string) {
 		level = []int{id}
 	}
 	top := tower[len(tower)-1]
+	// a manifest that does not decode (never stored: its Push must fail cleanly)
+	bad := add(dag.KBlob, ocispec.MediaTypeImageManifest, []byte(fmt.Sprintf("{not json %x", salt)), nil, -1)
 	g := dag.Decode(enc)
 	e := &xstore{u: newUniverse(g), kind: "oci", autoGC: r.Chance(1, 5), id: run.NewID(), origin: origin}
 	if err := e.open(); err != nil {
@@ -2494,9 +2511,11 @@ func genChain(r *common.Rand, origin string) {
 	if len(algs) > 0 {
 		run.Count("chain-with-sha512-or-sha384")
 	}
-	order := make([]int, len(enc))
-	for i := range order {
-		order[i] = i
+	var order []int
+	for i := range enc {
+		if i != bad {
+			order = append(order, i)
+		}
 	}
 	if r.Bool() {
 		common.Shuffle(r, order)
@@ -2506,10 +2525,20 @@ func genChain(r *common.Rand, origin string) {
 		// (issued before every reopen)
 		e.do("autosave:off")
 	}
-	for _, i := range order {
+	badAt := -1
+	if r.Bool() {
+		badAt = r.Intn(len(order))
+	}
+	for k, i := range order {
+		if k == badAt {
+			e.do(fmt.Sprintf("badpush:%d", bad))
+		}
 		e.do(fmt.Sprintf("push:%d", i))
 	}
 	e.do(fmt.Sprintf("tag:%d:root", top))
+	if r.Chance(1, 3) {
+		e.do(fmt.Sprintf("badpush:%d", bad))
+	}
 	reopen := func() { e.do("reopen:" + common.Pick(r, []string{"dir", "dir", "fs", "tar"})) }
 	if r.Chance(1, 3) {
 		// the same layout as another tool would have written it
@@ -2774,7 +2803,7 @@ func coverageFloors() []string {
 		"history-with-autogc-cascade": 5, "reopen-dir": 40, "reopen-fs": 15, "reopen-tar": 15,
 		"foreign-roots-only-index": 10, "push-concurrent": 40, "order-parents-first": 40,
 		"order-children-first": 40, "order-shuffled": 40, "query-absent-node-with-preds": 500,
-		"chain-with-sha512-or-sha384": 8, "anytime-blocks-with-queries": 150, "tag-non-manifest": 5, "delete-absent": 5, "phase2-concurrent-push": 10, "autosave-off": 12, "saveindex": 8,
+		"chain-with-sha512-or-sha384": 8, "bad-manifest-push-refused": 10, "anytime-blocks-with-queries": 150, "tag-non-manifest": 5, "delete-absent": 5, "phase2-concurrent-push": 10, "autosave-off": 12, "saveindex": 8,
 		"links-dockermanifest": 40, "links-imagemanifest": 40, "links-dockerlist": 40, "links-imageindex": 40,
 		"links-artifact": 40, "links-other": 40,
 	}
